@@ -124,13 +124,19 @@ def coq_pipeline(rsmi):
 
 # ------------------------------------------------------------------ MolToGraph.transform alone
 
+DECOY = "[CH3:91][CH2:92][CH2:93][CH:94]([OH:99])[CH2:95][CH2:96][c:97]1[cH:98][cH:100][cH:101][cH:102][cH:103]1"
+
+
 def obs_m2g(smiles, drop, use):
     from synkit.IO.mol_to_graph import MolToGraph
     mol = sanitized_mol(smiles)
     if mol is None:
         return ["unparsable"]
+    conv = MolToGraph(node_attrs=NODE_ATTRS, edge_attrs=EDGE_ATTRS)
     try:
-        g = MolToGraph(node_attrs=NODE_ATTRS, edge_attrs=EDGE_ATTRS).transform(mol, drop_non_aam=drop, use_index_as_atom_map=use)
+        # the converter object is used twice: first on a decoy molecule (state left behind must not leak into the second call)
+        conv.transform(sanitized_mol(DECOY), drop_non_aam=False, use_index_as_atom_map=True)
+        g = conv.transform(mol, drop_non_aam=drop, use_index_as_atom_map=use)
     except ValueError:
         return []
     return [E.obs_mgraph(g)]
